@@ -4,6 +4,9 @@ import os, subprocess
 def pregen(ctx):
     """Regenerates lean/MahfModel/Generated/Templates.lean from the trees the real constructors build."""
     lean, target = ctx["lean"], ctx["target"]
+    ok, out = ctx["build_bin"]("c16")          # other properties (C06, C07) share this regenerated layer
+    if not ok:
+        raise RuntimeError("harness binary c16 does not build: " + out[-400:])
     with ctx["Lock"](os.path.join(lean, ".lock")):
         rc, out = ctx["sh"](["lake", "build", "drv_c16"], cwd=lean, timeout=3600)
         if rc != 0:
